@@ -100,9 +100,32 @@ func Generate(r *rand.Rand, profile string) *Scenario {
 		}
 		sc.Nodes = append(sc.Nodes, n)
 	}
+	// ---- node pool: the scheduler only owns the nodes (pod groups, queues) selected by its pool label;
+	// the other nodes are empty and stay attractive (nothing runs there)
+	if (profile == "constr" && chance(0.45)) || (profile == "mixed" && chance(0.12)) {
+		sc.Cfg.PoolKey = "kai.scheduler/node-pool"
+		sc.Cfg.PoolVal = []string{"a", "a", ""}[r.Intn(3)]
+		in := 0
+		for i := range sc.Nodes {
+			out := chance(0.4) && !(i == len(sc.Nodes)-1 && in == 0)
+			switch {
+			case out && sc.Cfg.PoolVal != "" && chance(0.3):
+				// no pool label at all
+			case out:
+				sc.Nodes[i].Labels[sc.Cfg.PoolKey] = "b"
+			case sc.Cfg.PoolVal != "":
+				sc.Nodes[i].Labels[sc.Cfg.PoolKey] = sc.Cfg.PoolVal
+				in++
+			default:
+				in++
+			}
+		}
+	}
 	totalGpus := 0
-	for _, n := range sc.Nodes {
-		totalGpus += n.Gpus
+	for i := range sc.Nodes {
+		if sc.InPool(&sc.Nodes[i]) {
+			totalGpus += sc.Nodes[i].Gpus
+		}
 	}
 
 	// ---- queues: optional parents (departments) and leaves
@@ -191,7 +214,7 @@ func Generate(r *rand.Rand, profile string) *Scenario {
 	tryPlace := func(p *Pod, ni int) bool {
 		n := &sc.Nodes[ni]
 		u := &use[ni]
-		if n.Ready == 0 || n.Unsched == 1 || len(n.Taints) > 0 {
+		if n.Ready == 0 || n.Unsched == 1 || len(n.Taints) > 0 || !sc.InPool(n) {
 			return false
 		}
 		if u.cpu+effCpu(p) > n.Cpu || u.mem+p.Mem > n.Mem {
